@@ -272,7 +272,30 @@ def gen_Defaults():
     write("Defaults", body, "magpylib/_src/defaults/defaults_values.py:DEFAULTS")
 
 
-GENERATORS = {"Const": gen_Const, "Defaults": gen_Defaults, "Attr": gen_Attr, "PathPad": gen_PathPad, "Exits": gen_Exits, "Ndim": gen_Ndim}
+def gen_Units():
+    """`_UNIT_PREFIX` (power of ten -> prefix) and, for every prefix p, the decimal exponent k with
+    get_unit_factor(p+'m', target_unit='m') = 10^k (to 1e-12 relative; anything else is refused)"""
+    import math
+
+    from magpylib._src.utility import _UNIT_PREFIX, get_unit_factor
+
+    rows = []
+    for power, pref in sorted(_UNIT_PREFIX.items()) + [(-1, "d"), (-2, "c")]:
+        if pref == "":
+            continue
+        f = float(get_unit_factor(pref + "m", target_unit="m"))
+        k = round(math.log10(f))
+        if abs(f / 10.0**k - 1) > 1e-12:
+            raise Refusal(f"unit factor for prefix {pref!r} is {f!r}, not a power of ten")
+        rows.append((power, pref, k))
+    lst = ", ".join(f'(({p} : Int), "{a}", ({k} : Int))' for p, a, k in rows)
+    body = ("namespace MagpyVerif.Gen.Units\n\n"
+            "/-- (power of ten of the prefix, prefix, decimal exponent of the factor returned for '<prefix>m' -> 'm') -/\n"
+            f"def table : List (Int × String × Int) := [{lst}]\n\nend MagpyVerif.Gen.Units\n")
+    write("Units", body, "magpylib/_src/utility.py:_UNIT_PREFIX, get_unit_factor")
+
+
+GENERATORS = {"Const": gen_Const, "Units": gen_Units, "Defaults": gen_Defaults, "Attr": gen_Attr, "PathPad": gen_PathPad, "Exits": gen_Exits, "Ndim": gen_Ndim}
 
 
 def main():
